@@ -458,7 +458,13 @@ func TestTlvShapes(t *testing.T) {
 			if sgn != nil && ok {
 				want := rangesBytes(raw, covRanges)
 				ev["signerSawCovered"] = want != nil && bytes.Equal(sgn.saw, want)
-				ev["parserCovered"] = want != nil && bytes.Equal(cov.Join(), want)
+				pc := want != nil && bytes.Equal(cov.Join(), want)
+				// the covered bytes must be the same when the packet is presented in four segments
+				if q := len(raw) / 4; q > 0 {
+					cov4, sig4, ok4 := decodeOK(enc.NewWireReader(enc.Wire{raw[:q], raw[q : 2*q], raw[2*q : 3*q], raw[3*q:]}))
+					pc = pc && ok4 && bytes.Equal(cov4.Join(), want) && sig4 != nil && kit.verify(s.Signer, cov4, sig4)
+				}
+				ev["parserCovered"] = pc
 				ev["accepted"] = sig != nil && kit.verify(s.Signer, cov, sig)
 			}
 		}()
@@ -522,7 +528,7 @@ func TestTlvShapes(t *testing.T) {
 						}
 					}
 				}()
-				w.Emit(map[string]any{"ev": "tamper", "kind": sh.Kind, "id": s.Id, "signer": s.Signer, "region": rg.name, "bit": bit, "outcome": outcome})
+				w.Emit(map[string]any{"ev": "tamper", "kind": sh.Kind, "id": s.Id, "signer": s.Signer, "region": rg.name, "bit": bit, "off": bit/8 - rg.r[0], "outcome": outcome})
 				n++
 			}
 		}
